@@ -13,7 +13,10 @@
 (* operator, has its own key only).                                        *)
 (*                                                                         *)
 (* The per-property modules are reused by INSTANCE, their actions are the  *)
-(* steps of this specification:                                            *)
+(* steps of this specification (Handshake, Firewall and Retransmission are *)
+(* taken from their own directories at check time; Envelope.tla and        *)
+(* Broadcast.tla in this directory are copies of specs/Envelope and        *)
+(* specs/Broadcast taken on 2026-09-22, to be refreshed from there):       *)
 (*   HS  = Handshake       (C20)  the three acts of a session S -> R with  *)
 (*                                A on the wire (acts, protocol id,        *)
 (*                                challenge, signed pinned envelopes)      *)
@@ -193,9 +196,11 @@ SEnv(k) == [author |-> "S", inner |-> "S", seq |-> k, sig |-> "ok"]
 MsgOf(e) == [s |-> e.inner, n |-> e.seq]
 
 \* channel.go processContainerMessage, as specified by Envelope!Verdict
+\* (Envelope tags the content of the sender field: a peer's well-formed identity, or malformed bytes)
+EnvInner(x) == IF x \in Peers THEN ENV!Id(x) ELSE <<"malformed", "garbage">>
 Verdict(e) ==
     LET v == ENV!Verdict([outer |-> e.author, container |-> "ok", type |-> "registered", payload |-> "ok",
-                          inner |-> e.inner, seq |-> e.seq])
+                          inner |-> EnvInner(e.inner), seq |-> e.seq])
     IN IF ~MatchInner /\ v = "mismatch" THEN "delivered" ELSE v
 
 \* what A can put on a connection it has
